@@ -290,7 +290,12 @@ func (re *Regexp) forEachStringMatch(s string, n int, f func(*regexp2.Match)) {
 	for m != nil && n != 0 {
 		if m.RuneLength != 0 || m.RuneIndex != prevEnd {
 			f(m)
+			// the edge the next match can abut: the end of this match, or its start when the
+			// pattern scans right to left
 			prevEnd = m.RuneIndex + m.RuneLength
+			if re.re.RightToLeft() {
+				prevEnd = m.RuneIndex
+			}
 			if n > 0 {
 				n--
 				if n == 0 {
